@@ -306,3 +306,49 @@ def keep_failing_histories(ctx, res):
         for d in res.oracle_fails + res.disagreements:
             d["file"] = os.path.relpath(outp, vc.VERIF)
     shutil.rmtree(ctx.scratch, ignore_errors=True)
+
+
+# ------------------------------------------------------------------ reporters
+
+def jaeger_stream(ctx):
+    res = StreamResult("jaeger")
+    os.makedirs(ctx.scratch, exist_ok=True)
+    bindir = ctx.harness("reporters", flags="")
+    drv = ctx.driver()
+    shards = 16
+    n = ctx.scale(24, 600)
+    files, cmds = [], []
+    corpus = os.path.join(vc.VERIF, "corpus", ctx.prop)
+    if os.path.isdir(corpus):
+        for fn in sorted(os.listdir(corpus)):
+            if fn.endswith(".jaeger"):
+                f = os.path.join(ctx.scratch, "corpus-" + fn + ".txt")
+                cmds.append("%s/vreporters jaeger --replay %s --out %s" % (bindir, os.path.join(corpus, fn), f)); files.append(f)
+    for s in range(shards):
+        f = os.path.join(ctx.scratch, "jaeger-%d.txt" % s)
+        cmds.append("%s/vreporters jaeger --seed %d --n %d --out %s" % (bindir, ctx.seed * 1000 + s, n, f)); files.append(f)
+    for rc, out in vc.parallel(cmds):
+        if rc != 0:
+            raise BuildError("harness jaeger run failed: " + out[-2000:])
+    outs = vc.parallel(["%s jaeger %s %s" % (drv, f, ctx.prop) for f in files])
+    for (rc, out), f in zip(outs, files):
+        if rc != 0:
+            raise BuildError("model driver failed on %s: %s" % (f, out[-2000:]))
+        for line in out.split("\n"):
+            if line.startswith("DISAGREE "):
+                m = re.match(r"DISAGREE (\d+) (.*)$", line)
+                res.disagreements.append({"line": int(m.group(1)), "detail": m.group(2)[:1500], "file": f})
+            elif line.startswith("ORACLEFAIL "):
+                m = re.match(r"ORACLEFAIL (\d+) (.*)$", line)
+                res.oracle_fails.append({"line": int(m.group(1)), "case": m.group(2)[:1500], "file": f})
+            elif line.startswith("SUMMARY "):
+                kv = dict(x.split("=") for x in line.split()[1:])
+                res.cases += int(kv.get("cases", 0)); res.nontrivial += int(kv.get("nontrivial", 0))
+        collect_stats(res, f, nsamples=0)
+    for f in files[:1]:
+        with open(f, errors="replace") as fh:
+            for l in fh:
+                if l.startswith("J "):
+                    res.samples.append(l.strip()[:600]); break
+    keep_failing_files(ctx, res)
+    return res
